@@ -50,13 +50,34 @@ func (f *Tagbody) Call(s *slip.Scope, args slip.List, depth int) slip.Object {
 	ns.TagBody = true
 	d2 := depth + 1
 	for i := 0; i < len(args); i++ {
+		if isTag(args[i]) {
+			continue // a tag is a label and is not evaluated
+		}
 		if gt, _ := slip.EvalArg(ns, args, i, d2).(*GoTo); gt != nil {
-			for i++; i < len(args); i++ {
-				if args[i] == gt.Tag {
+			// The tag can be before or after the go. A tag of an enclosing
+			// tagbody is left for that tagbody.
+			target := -1
+			for j, a := range args {
+				if isTag(a) && slip.ObjectEqual(a, gt.Tag) {
+					target = j
 					break
 				}
 			}
+			if target < 0 {
+				return gt
+			}
+			i = target
 		}
 	}
 	return nil
+}
+
+// isTag returns true if the element of a tagbody is a tag, a symbol, an
+// integer, t, or nil, and not a form.
+func isTag(a slip.Object) bool {
+	switch a.(type) {
+	case nil, slip.Symbol, slip.Integer:
+		return true
+	}
+	return a == slip.True
 }
